@@ -65,11 +65,18 @@ class CommandRun:
         self.nanable = nanable
         self.jobs = jobs or min(16, os.cpu_count() or 1)
         self.stats = {}
+        # World invariant, discharged by this very run (see run()): between two
+        # commands the halt mode is OFF.  While it is inductive the worlds
+        # start from OFF; as soon as one path breaks it, everything is redone
+        # from an arbitrary halt mode.
+        self.pin_halt = cls_name == "GCodeBuilder"
+        self.halt_note = None
 
     # ------------------------------------------------------------ world (per process)
     def make_world(self):
         P = Program(self.repo)
-        W = World(P, self.cls_name, loop_unroll=self.loop_unroll)
+        W = World(P, self.cls_name, loop_unroll=self.loop_unroll,
+                  keep_fields=({HALT_FIELD} if self.pin_halt else ()))
         I = W.I
         I.transform_mode = self.transform
         I.sign_mode = self.sign_mode
@@ -84,8 +91,10 @@ class CommandRun:
         out = []
         pub = W.public_methods()
         names = sorted(pub) if self.methods is None else [m for m in self.methods]
+        if self.pin_halt:
+            names = names + [n for n in sorted(pub) if n not in names]      # the induction needs every command
         for n in names:
-            if n in self.exclude:
+            if not self.analysed_command(n) and not self.pin_halt:
                 continue
             if n not in pub:
                 raise AnalysisError(f"{self.cls_name} has no public method {n}")
@@ -96,6 +105,9 @@ class CommandRun:
                 for b in bodies:
                     out.append((n, i, b))
         return out
+
+    def analysed_command(self, n):
+        return n not in self.exclude and (self.methods is None or n in self.methods)
 
     def run_task(self, W, task, analyse):
         name, idx, body = task
@@ -118,18 +130,43 @@ class CommandRun:
                 return run_cm(I, v, body)
             return v
 
+        broken = []
+        only_invariant = not self.analysed_command(name)
+
         def on_path(res):
             count[0] += 1
+            if self.pin_halt and not broken:
+                w = halt_invariant_witness(W, name, desc, res)
+                if w:
+                    broken.append(w)
+            if only_invariant:
+                return
             r = analyse(W, name, f, ctx, desc, res)
             if r:
                 items.extend(r)
 
-        I.explore(setup, entry, on_path=on_path, max_dev=self.max_dev, max_paths=self.max_paths)
+        # commands that only take part in the induction use the tier's own bound
+        md = TIERS[self.tier]["max_dev"] if only_invariant else self.max_dev
+        I.explore(setup, entry, on_path=on_path, max_dev=md, max_paths=self.max_paths)
         return {"command": name, "ctx": desc, "paths": count[0], "truncated": I.last_truncated, "items": items,
-                "resolved_calls": I.resolved_calls}
+                "resolved_calls": I.resolved_calls, "halt_invariant_broken": broken, "only_invariant": only_invariant}
 
     # ------------------------------------------------------------ run all
     def run(self, analyse):
+        results = self._run(analyse)
+        if self.pin_halt:
+            broken = [w for r in results for w in r["halt_invariant_broken"]]
+            if broken:
+                self.halt_note = ("not inductive (" + broken[0] + "): commands are analysed from an arbitrary halt mode")
+                self.pin_halt = False
+                results = self._run(analyse)
+            else:
+                self.halt_note = ("inductive: the constructor leaves the halt mode OFF and every path of every public command that returns or "
+                                  "raises an exception a caller can catch ends with it OFF, so commands are analysed from halt mode OFF")
+        self.stats["halt_mode_invariant"] = self.halt_note or "not used"
+        return [r for r in results if not r.get("only_invariant")]
+
+    def _run(self, analyse):
         t0 = time.time()
         W0 = self.make_world()
         tasks = self.tasks(W0)
@@ -147,10 +184,11 @@ class CommandRun:
                         raise AnalysisError(r[1])
                     results.append(r)
         results.sort(key=lambda r: (r["command"], r["ctx"]))
+        counted = [r for r in results if not r.get("only_invariant")]
         self.stats = {
             "class": self.cls_name,
-            "commands": len({r["command"] for r in results}),
-            "contexts": len(results),
+            "commands": len({r["command"] for r in counted}),
+            "contexts": len(counted),
             "abstract_paths": sum(r["paths"] for r in results),
             "alternatives_beyond_deviation_bound": sum(r["truncated"] for r in results),
             "deviation_bound": self.max_dev,
@@ -162,6 +200,25 @@ class CommandRun:
         self.program = W0.P
         self.world = W0
         return results
+
+
+HALT_FIELD = "state._current_halt_mode"
+
+
+def halt_invariant_witness(W, name, desc, res):
+    """None while the path keeps the halt mode OFF, else a description."""
+    from .traceutil import out_of_scope_exception, resolve
+    if res.outcome == "raise" and out_of_scope_exception(W.P, res.value.cls):
+        return None
+    try:
+        st = res.heap[W.ref("state").addr]
+    except (AnalysisError, KeyError):
+        return None
+    v = resolve(st.fields.get("_current_halt_mode"), res.facts)
+    if isinstance(v, Member) and v.cls == "HaltMode" and v.name == "OFF":
+        return None
+    how = "returns" if res.outcome == "return" else f"raises {res.value.cls} in {res.raise_site[0]}"
+    return f"{name}({desc}) {how} with the halt mode {v!r}"
 
 
 _RUN = None
